@@ -78,7 +78,12 @@ RULE = ("objects of the 18 model classes generated from the attrs schemas: full 
         "non-string keys, a read-only top-level mapping, a textual ctime (dateutil's answer handed to the model as an "
         "oracle); limits of the validators (2047 / 2048-byte URLs in 1 and 2-byte characters, a lone surrogate, "
         "timestamp bounds +-1, 19/20/21-byte branch targets, visit 0 / -1 / True, perms as bool / str / None, id None, "
-        "non-string metadata keys); 40-deep metadata, 300 parents / entries / branches; non-trivial = an "
+        "non-string metadata keys); 40-deep metadata, 300 parents / entries / branches; about 1 free-form str / bytes value "
+        "in 10 (names, messages, fullnames, urls, origins, visit types, formats, extid types, offset bytes, header keys "
+        "and values, branch names, alias targets, entry names, metadata keys and values - object and dictionary routes, "
+        "nested objects too) carries a string / bytes literal harvested with ast from swh/model/*.py of the tree UNDER "
+        "TEST (gitobj_common.source_tokens) as prefix / suffix / infix / whole; the Release id oracle handed to the model "
+        "is an independent tag-object writer (not /repo's compute_hash); non-trivial = an "
         "object with >=1 optional field set and >=1 optional field None/elided, or a dictionary-level case; "
         "distinct = distinct canonical case")
 TRUSTED = ["attrs: __init__ binds kwargs by name, applies converters, runs validators in field order, then "
@@ -488,7 +493,7 @@ MD_MODES = ["absent", "none", "empty", "full"]
 ID_MODES = ["absent", "right", "wrong"]
 
 
-def gen_class(g, cls, cap):
+def _gen_class_raw(g, cls, cap):
     """list of SObj kwargs trees for class `cls`; `cap` bounds the presence matrix"""
     r = g.r
     out = []
@@ -662,7 +667,7 @@ def gen_class(g, cls, cap):
     return out
 
 
-def gen_rem(g, tag, ss, idm):
+def _gen_rem_raw(g, tag, ss, idm):
     r = g.r
     auth = SObj("MetadataAuthority", [("type", SEnum("D", r.choice(ENUM_VALUES["D"]))), ("url", g.url())]
                 + ([("metadata", g.metadata(r.choice(MD_MODES[1:])))] if r.random() < 0.4 else []))
@@ -680,6 +685,154 @@ def gen_rem(g, tag, ss, idm):
             f.append((k, None))
     f += id_field(g, idm or "absent")
     return SObj("RawExtrinsicMetadata", f)
+
+
+# ------------------------------------------------------------------ literals of the code under test, spliced into the values
+FREE_FIELDS = {
+    "Person": ["fullname", "name", "email"], "Origin": ["url"], "OriginVisit": ["origin", "type"],
+    "OriginVisitStatus": ["origin", "type"], "Release": ["name", "message", "raw_manifest"],
+    "Revision": ["message", "raw_manifest"], "Directory": ["raw_manifest"], "DirectoryEntry": ["name"],
+    "Content": ["data"], "SkippedContent": ["reason", "origin"], "MetadataAuthority": ["url"],
+    "MetadataFetcher": ["name", "version"], "RawExtrinsicMetadata": ["format", "metadata", "origin", "path"],
+    "ExtID": ["extid_type", "extid", "payload_type"], "TimestampWithTimezone": ["offset_bytes"],
+}
+SPLICE_P = 0.1
+
+
+def _tok(g, v):
+    """v (str or bytes) with a literal harvested from swh/model/*.py of the tree under test spliced in, 1 time in 10"""
+    if g.r.random() >= SPLICE_P:
+        return v
+    try:
+        from .gitobj_common import splice_token
+        return splice_token(g.r, v, "bytes" if isinstance(v, bytes) else "str")
+    except Exception:
+        return v
+
+
+def _splice_plain(g, v):
+    """free-form mapping content: keys (kept distinct) and str / bytes leaves, at any depth"""
+    if isinstance(v, (str, bytes)):
+        return _tok(g, v)
+    if isinstance(v, tuple):
+        return tuple(_splice_plain(g, x) for x in v)
+    if isinstance(v, list):
+        return [_splice_plain(g, x) for x in v]
+    if isinstance(v, SDict):
+        items, seen = [], set()
+        for k, x in v.items:
+            k2 = _tok(g, k) if isinstance(k, (str, bytes)) else k
+            if k2 in seen:
+                k2 = k
+            if k2 in seen:
+                continue
+            seen.add(k2)
+            items.append((k2, _splice_plain(g, x)))
+        return SDict(items)
+    return v
+
+
+def splice_spec(g, spec):
+    """a kwargs tree with literals of the code under test spliced into its free-form str / bytes values (names,
+    messages, fullnames, urls, origins, visit types, formats, extid types, offset bytes, raw manifests, data, header
+    keys and values, branch names, alias targets, entry names without '/', metadata keys and values), nested objects too"""
+    if not isinstance(spec, SObj):
+        return spec
+    free = FREE_FIELDS.get(spec.cls, [])
+    out = []
+    for n, v in spec.fields:
+        if isinstance(v, SObj):
+            v = splice_spec(g, v)
+        elif n in free and isinstance(v, (str, bytes)):
+            v = _tok(g, v)
+            if spec.cls == "DirectoryEntry":
+                v = v.replace(b"/", b"_")
+        elif n == "metadata" and isinstance(v, SDict):
+            v = _splice_plain(g, v)
+        elif n == "extra_headers" and isinstance(v, (tuple, list)):
+            v = type(v)((type(p)(_tok(g, x) if isinstance(x, bytes) else x for x in p) if isinstance(p, (tuple, list)) else p)
+                        for p in v)
+        elif n == "entries" and isinstance(v, tuple):
+            ents, seen = [], set()
+            for e in v:
+                e2 = splice_spec(g, e)
+                nm = dict(e2.fields).get("name") if isinstance(e2, SObj) else None
+                if nm in seen:
+                    e2 = e
+                seen.add(dict(e2.fields).get("name") if isinstance(e2, SObj) else None)
+                ents.append(e2)
+            v = tuple(ents)
+        elif n == "branches" and isinstance(v, SDict):
+            items, seen = [], set()
+            for k, b in v.items:
+                k2 = _tok(g, k) if isinstance(k, bytes) else k
+                if k2 in seen:
+                    k2 = k
+                seen.add(k2)
+                if isinstance(b, SObj):
+                    f = dict(b.fields)
+                    tt = f.get("target_type")
+                    if isinstance(tt, SEnum) and tt.value == "alias" and isinstance(f.get("target"), bytes):
+                        b = SObj(b.cls, [(fn, (_tok(g, fv) if fn == "target" else fv)) for fn, fv in b.fields])
+                items.append((k2, b))
+            v = SDict(items)
+        out.append((n, v))
+    if spec.cls == "SnapshotBranch":
+        f = dict(out)
+        tt = f.get("target_type")
+        if isinstance(tt, SEnum) and tt.value == "alias" and isinstance(f.get("target"), bytes):
+            out = [(fn, (_tok(g, fv) if fn == "target" else fv)) for fn, fv in out]
+    return SObj(spec.cls, out)
+
+
+def gen_class(g, cls, cap):
+    return [splice_spec(g, sp) for sp in _gen_class_raw(g, cls, cap)]
+
+
+def gen_rem(g, tag, ss, idm):
+    return splice_spec(g, _gen_rem_raw(g, tag, ss, idm))
+
+
+def token_sweep_cases(g, quick):
+    """EVERY literal harvested from the tree under test, deterministically, as prefix of (thorough: also as suffix of /
+    as the whole of) the values a special case could be keyed on: release name / message / author, origin url, metadata
+    origin / format, entry name, branch name and alias target, person fullname, visit type, extid type, fetcher name"""
+    try:
+        from .gitobj_common import source_tokens
+        bt, st = source_tokens("bytes"), source_tokens("str")
+    except Exception:
+        return []
+    r = g.r
+    out = []
+
+    def emit(sp):
+        try:
+            out.append({"cls": sp.cls, "kind": "obj", "route": "token", "w": enc(fix_right_id(sp))})
+        except Exception:
+            pass
+
+    forms = [lambda t, x: t + x] if quick else [lambda t, x: t + x, lambda t, x: x + t, lambda t, x: t]
+    for form in forms:
+        for t in bt:
+            v = form(t, b"x")
+            emit(SObj("Release", [("name", v), ("message", form(t, b"m")), ("target", g.sha()),
+                                  ("target_type", SEnum("B", "revision")), ("synthetic", False),
+                                  ("author", SObj("Person", [("fullname", form(t, b"A <a>")), ("name", v), ("email", None)])),
+                                  ("date", None)] + id_field(g, r.choice(["absent", "right"]))))
+            emit(SObj("Directory", [("entries", (SObj("DirectoryEntry", [("name", v.replace(b"/", b"_")), ("type", "file"),
+                                                                           ("target", g.sha()), ("perms", 0o100644)]),))]))
+            emit(SObj("Snapshot", [("branches", SDict([(v, SObj("SnapshotBranch", [("target", form(t, b"HEAD")),
+                                                                                   ("target_type", SEnum("A", "alias"))])),
+                                                       (form(t, b"y"), None)]))]))
+        for t in st:
+            v = form(t, "x")
+            emit(SObj("Origin", [("url", v)]))
+            emit(SObj("OriginVisit", [("origin", v), ("date", g.date()), ("type", form(t, "git"))]))
+            spec = _gen_rem_raw(g, "dir", set(), "absent")
+            emit(SObj(spec.cls, [(n, (form(t, "json") if n == "format" else x)) for n, x in spec.fields if n != "origin"]
+                      + [("origin", v)]))
+            emit(SObj("ExtID", [("extid_type", v), ("extid", form(t.encode("utf-8", "replace"), b"e")), ("target", g.core())]))
+    return out
 
 
 def invalid_objs(g):
@@ -857,6 +1010,7 @@ def person_form(g, fullname=RANDOM, name=RANDOM, email=RANDOM):
     fullname = r.choice([ABSENT, ABSENT, b"Full Name <f@n>", b""]) if fullname == RANDOM else fullname
     name = r.choice(PERSON_PARTS) if name == RANDOM else name
     email = r.choice(PERSON_PARTS) if email == RANDOM else email
+    fullname, name, email = [(_tok(g, x) if isinstance(x, bytes) else x) for x in (fullname, name, email)]
     items = [(k, v) for k, v in (("fullname", fullname), ("name", name), ("email", email)) if v != ABSENT]
     r.shuffle(items)
     leg = SDict(items)
@@ -1471,6 +1625,7 @@ def gen(rng, tier):
     cases += _guard(neighbour_cases, g, quick)
     cases += _guard(mixed_dict_cases, g, quick)
     cases += _guard(boundary_cases, g)
+    cases += _guard(token_sweep_cases, g, quick)
     rng.shuffle(specs)
     cases += _guard(dict_variants, g, specs[: (600 if quick else 20000)])
     # BaseContent.from_dict dispatches on status
@@ -1514,6 +1669,9 @@ def impl(c):
         except Exception as e:
             return {"new": "!" + exc_class(e)}
         res["new"] = enc(abstract(o))
+        if c["cls"] == "Release" and not any(n == "id" for n, _ in spec.fields):
+            ref = ref_release_id(o)          # the id was computed at construction: it is the id of the git tag object
+            res["ref_id"] = None if ref is None or ref == o.id.hex() else ref
         try:
             d = o.to_dict()
         except Exception as e:
@@ -1612,10 +1770,43 @@ def _oracle_id(make):
         return "00" * 20                  # no such object whatever the id: the oracle is never asked
     if not hasattr(o, "compute_hash"):
         return "00" * 20
+    if type(o).__name__ == "Release":
+        ref = ref_release_id(o)
+        if ref is not None:
+            return ref
     try:
         return o.compute_hash().hex()
     except Exception as e:
         return "!" + exc_class(e)
+
+
+GIT_TYPE = {"content": b"blob", "directory": b"tree", "revision": b"commit", "release": b"tag", "snapshot": b"refs"}
+
+
+def ref_release_id(o):
+    """the id of a release written independently of /repo: SHA-1 of the git tag object (object / type / tag / tagger
+    headers, continuation lines for embedded newlines, blank line + message), or of the raw manifest when there is one;
+    None where the rule gives no id (no target: /repo's own answer is used)"""
+    import hashlib
+    try:
+        from .gitobj_common import author_line_spec
+        if o.raw_manifest is not None:
+            return hashlib.sha1(o.raw_manifest).hexdigest()
+        if o.target is None:
+            return None
+        esc = lambda v: v.replace(b"\n", b"\n ")
+        lines = [b"object " + o.target.hex().encode(), b"type " + GIT_TYPE[o.target_type.value], b"tag " + esc(o.name)]
+        if o.author is not None:
+            date = None
+            if o.date is not None:
+                date = (o.date.timestamp.seconds, o.date.timestamp.microseconds, o.date.offset_bytes.hex())
+            lines.append(b"tagger " + esc(author_line_spec(o.author.fullname, date)))
+        body = b"\n".join(lines) + b"\n"
+        if o.message is not None:
+            body += b"\n" + o.message
+        return hashlib.sha1(b"tag %d\x00" % len(body) + body).hexdigest()
+    except Exception:
+        return None
 
 
 def _origin_id(d):
@@ -1719,6 +1910,9 @@ def oracle(c, ires, mres):
     if c["kind"] == "obj":
         if ires.get("new", "").startswith("!"):
             return None                                   # not an object: nothing to round-trip
+        if ires.get("ref_id"):
+            return ("the id computed for the release is not the SHA-1 of its git tag object written independently "
+                    "(expected %s): the ids the round trip preserves are not the objects' ids" % ires["ref_id"])
         if ires.get("d", "").startswith("!") and ires["d"] != "!NotPlain":
             return "to_dict raised " + ires["d"]
         if ires.get("non_plain"):
